@@ -387,6 +387,34 @@ type EmbedPtrOmit struct {
 	Z *int `json:"z,omitempty"`
 }
 
+// omitempty fields of every reference kind promoted through an embedded pointer that is not the first field
+// (their offsets inside the pointed-to struct differ from the pointer's own offset)
+type InnerOmitRefs struct {
+	M  map[string]int    `json:"m,omitempty"` // offset 0
+	W  int               `json:"w"`           // 8
+	H  int               `json:"h"`           // 16
+	N  int               `json:"n"`           // 24
+	S  []int             `json:"s,omitempty"`
+	P  *int              `json:"p,omitempty"`
+	I  any               `json:"i,omitempty"`
+	T  string            `json:"t,omitempty"`
+	MM map[string]string `json:"mm,omitempty"`
+}
+
+// the embedded pointer sits at offset 24 (where the pointed-to struct has an integer) ...
+type EmbedPtrOmitRefs struct {
+	X int
+	Y string
+	*InnerOmitRefs
+	Z bool `json:"z,omitempty"`
+}
+
+// ... and at offset 8
+type EmbedPtrOmitRefs8 struct {
+	X int
+	*InnerOmitRefs
+}
+
 // structs embedding each other by pointer
 type MutA struct {
 	X int
